@@ -181,7 +181,7 @@ func planC10(tier string, root *simcore.RNG) *plan {
 				victims = append(victims, fmt.Sprintf("caller:%d", c))
 			}
 			sc := &Scenario{Prop: "C10", Family: "eval", Seed: r.Uint64(), Groups: [][]Job{{j}},
-				Sites: map[string]uint32{"caller": 1, "leaf.pre": 1, "leaf.post": 1}, Sched: genSched(r, victims),
+				Sites: map[string]uint32{"caller": 1, "leaf.pre": 1, "leaf.post": 1, "auto": uint32(r.Intn(2))}, Sched: genSched(r, victims),
 				Env: Env{GOMAXPROCS: pick(r, []int{1, 4, 16}), CPUs: 16, Race: true}}
 			pl.scenarios = append(pl.scenarios, sc)
 		}
@@ -225,7 +225,7 @@ func planC10(tier string, root *simcore.RNG) *plan {
 				a := Job{ID: 1, Kind: "mcu", Sink: "tri", Model: "cat:" + name, Cells: cells, EvalMod: mod, Leaves: r.Intn(2) == 0}
 				b := Job{ID: 2, Kind: "mcu", Sink: "tri", Model: "catref:" + name, Cells: cells, EvalMod: mod}
 				sc := &Scenario{Prop: "C10", Family: "render-pair", Seed: r.Uint64(), Groups: [][]Job{{a}, {b}},
-					Sites: map[string]uint32{"eval.pre": mod, "eval.post": mod, "leaf.pre": 8, "leaf.post": 8, "close": 1, "write": 16, "mc.sent": 1, "cons.tri": 1, "worker.start": 1, "go.start": 1},
+					Sites: map[string]uint32{"eval.pre": mod, "eval.post": mod, "leaf.pre": 8, "leaf.post": 8, "close": 1, "write": 16, "mc.sent": 1, "cons.tri": 1, "worker.start": 1, "go.start": 1, "auto": pick(r, []uint32{0, 4, 8})},
 					Sched: genSched(r, []string{"evalpost", fmt.Sprintf("eval:%d", r.Intn(8)), "consumer"}),
 					Env:   Env{GOMAXPROCS: pick(r, []int{1, 4, 16}), CPUs: pick(r, []int{4, 16, 16}), Race: true}}
 				pl.scenarios = append(pl.scenarios, sc)
